@@ -50,6 +50,7 @@ fn dispatch(cmd: &str, rest: &[String]) -> i32 {
         "ch-law" => choices::law(rest),
         "ch-trace" => choices::trace(rest),
         "ch-sizes" => choices::sizes(rest),
+        "ch-huge" => choices::huge(rest),
         "cases-trace" => cases::trace(rest),
         "evo-trace" => evolution::trace(rest),
         "cmp-replay" => compose::replay(rest),
